@@ -241,4 +241,61 @@ def c08_3(c: Ctx) -> None:
                reads=sorted(reads)[:40])
 
 
+
+def check_precreated_pending(c: Ctx) -> None:
+    """process_event registers a 'pending' result for every applicable handler before the first handler runs."""
+    u = c.unit(SVC, 'EventBus.process_event')
+    g = c.cfg(u)
+    ev = u.params()[1]
+    ex = [n for n in g.live_nodes() if q.node_calls(n, '_execute_handlers')]
+    c.floor(len(ex), 1, '_execute_handlers call in process_event')
+    loops = []
+    for n in own_nodes(u.node):
+        if isinstance(n, ast.For) and any(isinstance(x, ast.Call) and call_name(x) == 'event_result_update' and kwconst(x, 'status') == 'pending' for x in ast.walk(n)):
+            loops.append(n)
+    if not loops:
+        c.fail(u, "no loop creating status='pending' results for the applicable handlers before _execute_handlers", "between two handlers of one event only finished results exist: any completion check in that window (a background task awaiting another event inline, a child finishing on another bus) marks the event complete; then the next handler starts and the completed event changes")
+        return
+    from sa.cfg import search
+
+    for lp in loops:
+        # the loop must cover exactly the mapping handed to _execute_handlers
+        call = q.node_calls(ex[0], '_execute_handlers')[0]
+        handed = q.kw(call, 'handlers') or (call.args[1] if len(call.args) > 1 else None)
+        src = U(lp.iter).split('.items()')[0].split('.keys()')[0]
+        if handed is not None and U(handed) == src and not any(isinstance(x, (ast.Break, ast.Return)) for x in ast.walk(lp)):
+            c.ok(where(u, lp), f'pending results are created for every entry of {src}, the mapping handed to _execute_handlers')
+        else:
+            c.fail(u, f'pending results created for {src}, handlers executed from {U(handed) if handed is not None else "?"}', 'some handlers that will run have no pending result registered first', node=lp)
+        heads = {n.id for n in g.nodes_of(lp, ('for',))}
+        for en in ex:
+            p = search([(g.entry, ())], is_target=lambda n, d: n is en, is_barrier=lambda n, d: n.id in heads)
+            if p is None:
+                c.ok(where(u, lp), 'the handlers are executed only after the pending results were registered')
+            else:
+                c.fail(u, '_execute_handlers reachable without passing the pending-result loop', 'handlers start while the event has no pending results for the others: it can be marked complete between two handlers', node=en.ast, witness=c.path(g.entry, p))
+        # inside the loop: the only condition that may skip the creation is "a result already exists"
+        for upd in [x for x in ast.walk(lp) if isinstance(x, ast.Call) and call_name(x) == 'event_result_update' and kwconst(x, 'status') == 'pending']:
+            conds = [a for a in q.ancestors_of(upd) if isinstance(a, ast.If) and q.lexically_in(a, lp)]
+            okc = all(isinstance(a.test, ast.Compare) and isinstance(a.test.ops[0], ast.NotIn) and U(a.test.comparators[0]) == f'{ev}.event_results' for a in conds)
+            if okc:
+                c.ok(where(u, upd), 'creation skipped only for handlers that already have a result')
+            else:
+                c.fail(u, f'pending-result creation is conditional on {[U(a.test)[:50] for a in conds]}', 'some applicable handlers get no pending result before execution starts', node=upd)
+
+
+@ob('C08.5', 'ORD', "process_event registers a 'pending' result for every applicable handler before the first handler runs, so the completion predicate sees unfinished work "
+    'for as long as any handler of the event has not run')
+def c08_5(c: Ctx) -> None:
+    check_precreated_pending(c)
+
+
+@ob('C08.4', 'WMW/DOM/SHAPE', 'an event is signalled complete only when all its results are terminal and all descendants are complete (same obligation as C03.1): an early signal is '
+    'a completion that later changes')
+def c08_4(c: Ctx) -> None:
+    from .c03 import c03_1
+
+    c03_1(c)
+
+
 OBLIGATIONS = ob.obs
